@@ -19,7 +19,7 @@ RULE = ("(i) every byte string of length <=3 (thorough <=4) over a 12-symbol JSO
         "alphabet offered as the document; (iii) every single node fault (17 junk values, deletion, duplication under a sibling key) of 3 "
         "valid base documents (thorough: pairs on one base) (30 junk values incl. enums of floats/booleans/lists, inf/nan defaults, references urlparse refuses; 4 bases) and cyclic $ref shapes; (iv) every document of the other checks' spaces "
         "(generate only); seam: the real typer CLI via CliRunner for (i)-(iii); oracle: no escaping exception, termination, exit "
-        "status <=> error-level diagnostics (and --fail-on-warning), no output when the document is rejected; (v) YAML-native scalars (dates, timestamps, binary, sets, inf/nan) at 12 value slots, version strings of every JSON shape, YAML alias graphs (cyclic / re-used / deep)")
+        "status <=> error-level diagnostics (and --fail-on-warning), no output when the document is rejected; (v) YAML-native scalars (dates, timestamps, binary, sets, inf/nan) at 12 value slots, version strings of every JSON shape, YAML alias graphs (cyclic / re-used / deep), the same YAML-native values (plus a self-containing node and non-UTF-8 bytes) inside schemas / parameters / bodies / responses that are refused and printed back in the diagnostic")
 FLOOR = 0.3
 ASSUMPTIONS = ["typer's CliRunner reproduces the command's behaviour", "a per-case watchdog (30 s vs ~15 ms typical) detects hangs; a timeout is re-run alone with a tenfold limit by the confirmation step"]
 
@@ -202,7 +202,9 @@ def _foreign_docs(tier):
 
 
 NATIVE = {"date": "2020-01-02", "timestamp": "2020-01-02T03:04:05Z", "binary": "!!binary aGVsbG8=", "set": "!!set {a, b}", "inf": ".inf", "nan": ".nan", "neg-inf": "-.inf",
-          "octal": "0o17", "sexagesimal": "1:30", "null-tilde": "~", "bool-yes": "yes", "merge": "{<<: {a: 1}, b: 2}"}
+          "octal": "0o17", "sexagesimal": "1:30", "null-tilde": "~", "bool-yes": "yes", "merge": "{<<: {a: 1}, b: 2}",
+          # values a JSON encoder cannot write: a node that contains itself, bytes that are not UTF-8
+          "self-alias": "&loop [*loop]", "binary-non-utf8": "!!binary /w=="}
 NATIVE_SLOTS = {
     # slot name: YAML document template; @V@ is replaced by the native scalar, @O@ by an object holding it, @A@ by an array holding it
     "property-example-scalar": "components: {schemas: {M: {type: object, properties: {p: {type: string, example: @V@}}}}}",
@@ -217,6 +219,13 @@ NATIVE_SLOTS = {
     "body-schema-example": "paths: {/x: {post: {requestBody: {content: {application/json: {schema: {type: object, example: @O@, properties: {a: {type: string, example: @V@}}}}}}, responses: {'200': {description: d}}}}}",
     "response-schema-example": "paths: {/x: {get: {responses: {'200': {description: d, content: {application/json: {schema: {type: array, items: {type: string}, example: @A@}}}}}}}}",
     "info-version": "info2: {version: @V@}",
+    # the same values inside a node the generator REFUSES, i.e. one that is printed back as part of a diagnostic
+    "refused-schema-example": "components: {schemas: {Good: {type: object}, Bad: {type: array, example: @V@}}}",
+    "refused-schema-default-object": "components: {schemas: {Good: {type: object}, Bad: {type: array, default: @O@}}}",
+    "refused-property-example-array": "components: {schemas: {M: {type: object, properties: {p: {type: array, example: @A@}}}}}",
+    "refused-parameter": "paths: {/x: {get: {parameters: [{name: q, in: query, example: @O@, schema: {type: array, example: @V@}}], responses: {'200': {description: d}}}}}",
+    "refused-response": "paths: {/x: {get: {responses: {'200': {description: d, content: {application/json: {schema: {type: array, example: @A@}}}}}}}}",
+    "refused-body": "paths: {/x: {post: {requestBody: {content: {application/json: {schema: {type: array, default: @V@}}}}, responses: {'200': {description: d}}}}}",
 }
 
 
